@@ -30,14 +30,14 @@ void TwoPointsNumericalDerivative::updateDerivatives(const ParameterList& parame
     string lastVar;
     bool functionChanged = false;
     ParameterList p;
-    bool start = true;
     for (size_t i = 0; i < variables_.size(); ++i)
     {
       string var = variables_[i];
       if (!parameters.hasParameter(var))
         continue;
-      if (!start)
+      if (functionChanged)
       {
+        // also reset the parameter that was moved last
         vector<string> vars(2);
         vars[0] = var;
         vars[1] = lastVar;
@@ -46,10 +46,7 @@ void TwoPointsNumericalDerivative::updateDerivatives(const ParameterList& parame
       else
       {
         p = parameters.createSubList(var);
-        start = false;
       }
-      lastVar = var;
-      functionChanged = true;
       double value = function_->getParameterValue(var);
       double h = -(1. + std::abs(value)) * h_;
       if (abs(h) < p[0].getPrecision())
@@ -84,6 +81,14 @@ void TwoPointsNumericalDerivative::updateDerivatives(const ParameterList& parame
       }
 
       der1_[i] = (f2_ - f1_) / h;
+
+      // Only a parameter that was actually moved has to be reset later on
+      // (all probes may have been rejected by the constraint):
+      if (function_->getParameterValue(var) != value)
+      {
+        lastVar = var;
+        functionChanged = true;
+      }
     }
     // Reset last parameter and compute analytical derivatives if any:
     if (function1_)
